@@ -73,6 +73,11 @@ class Timer:
         return self.remaining < 0
 
     @property
+    def is_running(self) -> bool:
+        """Return ``True`` if the timer has been started and not (yet) stopped."""
+        return self._start_time is not None and self._end_time is None
+
+    @property
     def remaining(self) -> float:
         """Return the number of seconds remaining until timeout.
 
